@@ -117,6 +117,11 @@ MUTATIONS = [
     ("dask_expr/_shuffle.py", "    key = (other._name, npartitions, ascending, partition_size, upsample)\n", "    key = (frame._name, npartitions, ascending, partition_size, upsample)\n", "vf.contracts.caches:GetDivisions", "post:result-is-compute-of-the-arguments"),
     ("dask_expr/_shuffle.py", "    divisions_lru[key] = result\n    return result", "    divisions_lru[other._name] = result\n    return result", "vf.contracts.caches:GetDivisions", "post:stored-under-the-key"),
     ("dask_expr/_repartition.py", "    mem_usages_lru[frame._name] = result\n", "    mem_usages_lru[frame._name] = frame\n", "vf.contracts.caches:GetMemUsages", "UNDECIDED-OR-REFUTED"),
+    # generic column pruning (C04)
+    ("dask_expr/_expr.py", "        column_union = [col for col in expr.frame.columns if col in column_union]\n", "        column_union = [col for col in expr.frame.columns if col in parent.columns]\n", "vf.contracts.projection:PlainColumnProjection", "post:kept-covers-every-need"),
+    ("dask_expr/_expr.py", "    if column_union == parent.operand(\"columns\"):\n        return result\n    return type(parent)(result, parent.operand(\"columns\"))", "    return result", "vf.contracts.projection:PlainColumnProjection", "post:parent-selection-reapplied"),
+    ("dask_expr/_expr.py", "    if column_union == expr.frame.columns:\n        return\n    result = type(expr)(expr.frame[column_union], *expr.operands[1:])", "    if len(column_union) == len(expr.frame.columns) - 1:\n        return\n    result = type(expr)(expr.frame[column_union], *expr.operands[1:])", "vf.contracts.projection:PlainColumnProjection", "UNDECIDED-OR-REFUTED"),
+    ("dask_expr/_expr.py", "    result = type(expr)(expr.frame[column_union], *expr.operands[1:])\n    if column_union == parent.operand(\"columns\"):", "    result = type(expr)(expr.frame[parent.operand(\"columns\")], *expr.operands[1:])\n    if column_union == parent.operand(\"columns\"):", "vf.contracts.projection:PlainColumnProjection", "post:kept-covers-every-need"),
     # harmless edits: renamed local, reordered independent statements, extra statement
     ("dask_expr/_expr.py", "        new_divisions = []\n        for part in self._partitions:\n            new_divisions.append(full_divisions[part])\n        new_divisions.append(full_divisions[part + 1])\n        return tuple(new_divisions)", "        picked = []\n        for part in self._partitions:\n            picked.append(full_divisions[part])\n        picked.append(full_divisions[part + 1])\n        return tuple(picked)", "vf.contracts.partitions:PFDivisions", None),
     ("dask_expr/_repartition.py", "        npartitions = self.new_partitions\n        npartitions_input = self.frame.npartitions\n", "        npartitions_input = self.frame.npartitions\n        npartitions = self.new_partitions\n", "vf.contracts.repartition:FewerBoundaries", None),
